@@ -182,6 +182,19 @@ def _spec_job(text):
     return res
 
 
+def definition_specs(rng):
+    """every way of giving a concept whose key is inherited its individuals — one-value definitions, ranges, enumerations, facts —
+    followed by a rule over the same concept: in function mode all of them must print the concept with one shape"""
+    out = []
+    for (k, c) in (('patient', 'registration'), ('node', 'marker'), ('city', 'depot')):
+        decl = f'A {k} is identified by an id.\nA {c} is identified by a {k}.\n'
+        use = f'It is prohibited that there is a {c} with {k} id X, where X is equal to 2.\n'
+        for d in (f'john is a {c}.\n', f'3 is a {c}.\n', f'A {c} goes from 1 to 3.\n', f'There is a {c} with {k} id 1.\n',
+                  f'A {c} is one of 1, 2.\n'):
+            out.append(decl + d + use)
+    return out
+
+
 def main(tier):
     run = common.Run(PROP, tier)
     rng = random.Random(run.seed)
@@ -203,6 +216,7 @@ def main(tier):
     texts = [t for _, t in corpus.corpus()]
     n_wide = 120 if tier == 'quick' else 1200
     texts += [gen_wide.gen_spec(rng).text() for _ in range(n_wide)]
+    texts += definition_specs(rng)
     results = rt.pmap(_spec_job, texts, chunksize=2)
     n_harv = 0
     for r in results:
